@@ -43,7 +43,7 @@ theorem stepL {env : Env} {file : AFile} {G : List String} {P : Prog} {F : GFile
     obtain ⟨bb, rfl⟩ := hasTy_bool h4
     have := toG_bool h3; subst this
     simp only [post] at hbA
-    have hD1disj : ∀ y, y ∈ keys D1 → ¬ y ∈ keys gρ := fun y hy => hinvA.disj y (hD1 y hy)
+    have hD1disj : ∀ y, y ∈ keys D1 → ¬ y ∈ keys gρ := fun y hy => (sokB_top A _ hinvA.sok y (hD1 y hy)).2
     have hcvD1 : ¬ gid cv ∈ keys D1 := fun h => hD1disj _ h htk
     -- the `if !cond { break }`
     have hlk : lookupG (D1 ++ updateG gρ (gid cv) (.bool bb)) (gid cv) = some (.bool bb) := by
